@@ -561,55 +561,37 @@ func (k Keeper) LimitOrderBid(ctx sdk.Context) error {
 						return err
 					}
 					addr, _ := sdk.AccAddressFromBech32(individualBids.BidderAddress)
-					if individualBids.DebtToken.Amount.GTE(auction.DebtToken.Amount) {
-						//User has more tokens than target debt, so their bid will close the auction
-						///Placing a user bid
-						biddingId, err := k.PlaceDutchAuctionBid(ctx, auction.AuctionId, addr.String(), individualBids.DebtToken, auction, true)
-						if err != nil {
-							return err
-						}
-						if individualBids.DebtToken.Amount.Equal(auction.DebtToken.Amount) {
-							k.DeleteUserLimitBidData(ctx, auction.DebtAssetId, auction.CollateralAssetId, premiumPerc.TruncateInt(), individualBids.BidderAddress)
-
-							k.UpdateUserLimitBidDataForAddress(ctx, individualBids, false)
-							// subtract auction.DebtToken.Amount from protocol data
-							protocolData, _ := k.GetLimitBidProtocolDataByAssetID(ctx, auction.DebtAssetId, auction.CollateralAssetId)
-							protocolData.BidValue = protocolData.BidValue.Sub(auction.DebtToken.Amount)
-							err = k.SetLimitBidProtocolData(ctx, protocolData)
-							if err != nil {
-								return err
-							}
-							return nil
-						}
-						individualBids.DebtToken.Amount = individualBids.DebtToken.Amount.Sub(auction.DebtToken.Amount)
-						individualBids.BiddingId = append(individualBids.BiddingId, biddingId)
-						k.SetUserLimitBidData(ctx, individualBids, auction.DebtAssetId, auction.CollateralAssetId, premiumPerc.TruncateInt())
-						// subtract auction.DebtToken.Amount from protocol data
-						protocolData, _ := k.GetLimitBidProtocolDataByAssetID(ctx, auction.DebtAssetId, auction.CollateralAssetId)
-						protocolData.BidValue = protocolData.BidValue.Sub(auction.DebtToken.Amount)
-						err = k.SetLimitBidProtocolData(ctx, protocolData)
-						if err != nil {
-							return err
-						}
-					} else {
-						biddingId, err := k.PlaceDutchAuctionBid(ctx, auction.AuctionId, addr.String(), individualBids.DebtToken, auction, true)
-						if err != nil {
-							return err
-						}
-						debtAmount := individualBids.DebtToken.Amount
-						individualBids.DebtToken.Amount = sdk.ZeroInt()
-						individualBids.BiddingId = append(individualBids.BiddingId, biddingId)
-						k.SetUserLimitBidData(ctx, individualBids, auction.DebtAssetId, auction.CollateralAssetId, premiumPerc.TruncateInt())
-						// delete limit order bid
+					// Placing a user bid. PlaceDutchAuctionBid cuts the bid down to the auction debt or, when the
+					// collateral runs short, to the value of the left-over collateral
+					biddingId, err := k.PlaceDutchAuctionBid(ctx, auction.AuctionId, addr.String(), individualBids.DebtToken, auction, true)
+					if err != nil {
+						return err
+					}
+					// the limit bid is charged what was actually bid (the debt amount of the user bid just created),
+					// never more than it holds
+					userBid, err := k.GetUserBid(ctx, biddingId)
+					if err != nil {
+						return err
+					}
+					bidAmount := userBid.DebtTokenAmount.Amount
+					if bidAmount.GT(individualBids.DebtToken.Amount) {
+						return auctionsV2types.ErrorMaxBidAmount
+					}
+					individualBids.DebtToken.Amount = individualBids.DebtToken.Amount.Sub(bidAmount)
+					individualBids.BiddingId = append(individualBids.BiddingId, biddingId)
+					if individualBids.DebtToken.Amount.IsZero() {
+						// the limit bid is used up: delete it
 						k.UpdateUserLimitBidDataForAddress(ctx, individualBids, false)
 						k.DeleteUserLimitBidData(ctx, auction.DebtAssetId, auction.CollateralAssetId, individualBids.PremiumDiscount, individualBids.BidderAddress)
-						// subtract auction.DebtToken.Amount from protocol data
-						protocolData, _ := k.GetLimitBidProtocolDataByAssetID(ctx, auction.DebtAssetId, auction.CollateralAssetId)
-						protocolData.BidValue = protocolData.BidValue.Sub(debtAmount)
-						err = k.SetLimitBidProtocolData(ctx, protocolData)
-						if err != nil {
-							return err
-						}
+					} else {
+						k.SetUserLimitBidData(ctx, individualBids, auction.DebtAssetId, auction.CollateralAssetId, premiumPerc.TruncateInt())
+					}
+					// subtract the amount bid from protocol data
+					protocolData, _ := k.GetLimitBidProtocolDataByAssetID(ctx, auction.DebtAssetId, auction.CollateralAssetId)
+					protocolData.BidValue = protocolData.BidValue.Sub(bidAmount)
+					err = k.SetLimitBidProtocolData(ctx, protocolData)
+					if err != nil {
+						return err
 					}
 
 				}
